@@ -32,7 +32,10 @@ Alphabets == [
                  "[", "]", " ", "{", "}", ":k ">>,
   \* not an alphabet: hand-written preambles of 8 x len lines, each value naming the placeholder of the line above
   \* twice (values are data: they are not expanded; PRINT of what is read stays small)
-  chain    |-> <<"x">> ]
+  chain    |-> <<"x">>,
+  \* not an alphabet either: forms nested 400 x len deep, left open (incomplete: the expected closer is the innermost
+  \* one's) or closed again (one value)
+  deep     |-> <<"x">> ]
 Sep == IF AlphaName \in {"tokens", "tokens2"} THEN " " ELSE ""
 A == Alphabets[AlphaName]
 NA == Len(A)
@@ -48,16 +51,33 @@ ChainText(n, k) ==
   Rep(CASE k = 0 -> ";; $A [$A $A]\n" [] k = 1 -> ";; $A {:k $A :j $A}\n" [] k = 2 -> ";; $B [$A $A]\n;; $A [$B $B]\n"
         [] OTHER -> ";; $A ($A $A)\n", 8 * n) \o "\n$A"
 
+DeepText(n, k) ==
+  LET d == 400 * n IN
+  CASE k = 0 -> Rep("(", d)
+    [] k = 1 -> Rep("[1 ", d)
+    [] k = 2 -> Rep("(a [b {:k ", d \div 2)
+    [] k = 3 -> Rep("'", d) \o "(a"
+    [] k = 4 -> Rep("#{", 1) \o Rep("\"s\" ", d)
+    [] k = 5 -> Rep("(", d) \o Rep(")", d)
+    [] k = 6 -> Rep("[", d) \o "7" \o Rep("]", d)
+    [] OTHER -> Rep("(f ", d) \o "\"s"
+
 VARIABLES len, idx, ph
 Init == /\ ph = 0 /\ len \in 0..MaxLen
-        /\ IF AlphaName = "chain" THEN len >= 1 /\ idx \in 0..3 ELSE idx \in 0..(Pow(NA, len) - 1)
+        /\ IF AlphaName = "chain" THEN len >= 1 /\ idx \in 0..3
+           ELSE IF AlphaName = "deep" THEN len >= 1 /\ idx \in 0..7 ELSE idx \in 0..(Pow(NA, len) - 1)
 
 Next == /\ ph = 0 /\ ph' = 1 /\ UNCHANGED <<len, idx>>
-        /\ LET text == IF AlphaName = "chain" THEN ChainText(len, idx) ELSE TextOf(len, idx)
+        /\ LET text == IF AlphaName = "chain" THEN ChainText(len, idx)
+                       ELSE IF AlphaName = "deep" THEN DeepText(len, idx) ELSE TextOf(len, idx)
                r == Read(text)
                rt == IF r.st = "ok" THEN (LET r2 == Read(PrStr(r.v)) IN r2.st = "ok" /\ StructEq(r2.v, r.v)) ELSE TRUE
-               c == [kind |-> "text", tag |-> AlphaName, text |-> text, cls |-> r.st, closer |-> r.closer,
-                     v |-> r.v, model_rt |-> IF rt THEN 1 ELSE 0]
+               \* (the value of a deeply nested text is not printed: it is as deep as the text)
+               c == IF AlphaName = "deep"
+                    THEN [kind |-> "text", tag |-> AlphaName, text |-> text, cls |-> r.st, closer |-> r.closer,
+                          model_rt |-> IF rt THEN 1 ELSE 0]
+                    ELSE [kind |-> "text", tag |-> AlphaName, text |-> text, cls |-> r.st, closer |-> r.closer,
+                          v |-> r.v, model_rt |-> IF rt THEN 1 ELSE 0]
            IN /\ Assert(rt, <<"model round trip fails for", text>>)
               /\ PrintT("CASE " \o ToJson(c))
 Spec == Init /\ [][Next]_<<len, idx, ph>>
